@@ -113,11 +113,14 @@ struct ChunkedBody<R: Read> {
 
 impl<R: Read> Read for ChunkedBody<R> {
     fn read(&mut self, buf: &mut [u8]) -> io::Result<usize> {
+        // a read into an empty buffer must not reach the decoder: it could consume the last
+        // chunk without us noticing, and the discard in `drop` would then eat the next request
+        if buf.is_empty() {
+            return Ok(0);
+        }
         let result = self.decoder.read(buf);
-        match result {
-            Ok(0) if !buf.is_empty() => self.finished = true,
-            Err(_) => self.finished = true,
-            _ => (),
+        if let Ok(0) | Err(_) = result {
+            self.finished = true;
         }
         result
     }
